@@ -1,5 +1,6 @@
 (* C10 - NTS authentication is sound: only untampered packets under the right
-   key pass.  Statements only; proofs live in Proofs/NtsAuthProofs.v, the
+   key pass.  Statements only; proofs live in Proofs/NtsAuthProofs.v and (byte-level
+   completeness: encoder, wire format, decoder) Proofs/NtsAuthComplete.v, the
    satisfiability instance in Proofs/NtsAuthInstance.v.
 
    Reading guide.  seal/open are the AEAD (miscreant AES-SIV-CMAC) as symbols;
@@ -15,8 +16,8 @@
    seal key nonce (b[:p_pos p]) pt for some pt: the authenticator verifies
    under key over exactly the header and extension bytes that precede it.
    Quantification is over ALL byte strings, keys, nonces, identifiers. *)
-From Coq Require Import ZArith List Bool.
-From ST Require Import Base.Ints Model.NtsAuth Proofs.NtsAuthProofs Proofs.NtsAuthInstance.
+From Coq Require Import ZArith List Bool Lia.
+From ST Require Import Base.Ints Model.NtsAuth Proofs.NtsAuthProofs Proofs.NtsAuthComplete Proofs.NtsAuthInstance.
 Import ListNotations.
 Open Scope Z_scope.
 
@@ -101,22 +102,95 @@ Print Assumptions C10_wrong_uid.
 
 (* ---- completeness ---- *)
 
-(* FULL STATEMENT (kept visible):
-     forall hdr uid cookies placeholders key pt rnd b,
-       enc_packet seal hdr uid cookies placeholders key pt rnd = Ok b ->
-       (b is not truncated at 1024 bytes, uid is a multiple of 4 bytes, pt is empty
-        or the output of new_response) ->
-       server_accept open b key = Ok _  /\  client_accept open b key uid = Ok _.
-   Proved here: the authentication step.  A packet whose authenticator field
-   carries the seal under the receiver's key of the bytes in front of it, with a
-   16-byte nonce, is accepted whenever the decrypted extension fields are well
-   formed.  MISSING in Coq: that DecodePacket applied to the byte string that
-   EncodePacket assembles yields exactly that nonce, ciphertext and position
-   (decoder-after-encoder round trip over the field list).  That part is
-   enforced on every run by the oracle: every packet the real encoder emits
-   must be accepted by the real receiver (cases tagged "complete"), and the
-   model must agree byte for byte with EncodePacket and DecodePacket. *)
-Theorem C10_complete_partial : forall seal open, ideal_aead seal open ->
+(* every packet produced by the project's own encoder for the same keys is
+   accepted.  Byte level: the datagram b is what EncodePacket (enc_packet)
+   returns; DecodePacket (decode_packet) applied to b yields exactly the
+   encoder's identifier and nonce, the ciphertext that the encoder sealed over
+   b[:p_pos p], i.e. over the header and extension bytes in front of the
+   authenticator; and ProcessRequest / ProcessResponse accept it under the
+   sealing key.  For all keys of legal length, all headers, nonces, cookies.
+   Requests: NewRequestPacket's identifier has 32 bytes (newID) and the key
+   exchange admits cookies of at most 896 bytes (ntske.MaxCookieLen); nothing
+   else is assumed - that the packet fits into 1024 bytes is proved.
+   Responses: the cookies are of the issued shape (one length L, a multiple of
+   4: Encode of an encrypted server cookie; 124 bytes for 32-byte keys), the
+   identifier is the one decoded from a request (at least 32 bytes, a multiple
+   of 4 - see C10_complete_needs_padded_uid) and there is room for one cookie
+   (1 <= maxCookies: every request that DecodePacket admits leaves that room
+   for cookies of the size it carried itself); that the packet then fits into
+   1024 bytes is proved.  With L >= 24 (each field is then at least the 28 bytes
+   the loop of authenticate asks for) the client gets exactly the cookies
+   NewResponsePacket kept. *)
+Theorem C10_complete : forall seal open, ideal_aead seal open ->
+  (forall (c : bytes) (rest cookies phs : list bytes) (hdr uid key rnd : bytes),
+     new_request (c :: rest) = Ok (cookies, phs) -> (length c <= 896)%nat ->
+     length hdr = 48%nat -> length uid = 32%nat -> key_ok key = true -> length rnd = 16%nat ->
+     exists b p,
+       enc_packet seal hdr uid cookies phs key [] rnd = Ok b /\ (length b <= MaxPacketLen)%nat /\
+       decode_packet b = Ok p /\
+       p_uid p = uid /\ p_nonce p = rnd /\ p_ct p = seal key rnd (Some (firstn (p_pos p) b)) [] /\
+       server_accept open b key = Ok p) /\
+  (forall (c0 : bytes) (rest : list bytes) L (pt hdr uid key rnd : bytes),
+     Forall (fun c : bytes => length c = L) (c0 :: rest) -> (L mod 4 = 0)%nat ->
+     new_response (c0 :: rest) uid = Ok pt ->
+     (32 <= length uid)%nat -> (length uid mod 4 = 0)%nat -> 1 <= max_cookies (length uid) L ->
+     length hdr = 48%nat -> key_ok key = true -> length rnd = 16%nat ->
+     exists b p p',
+       enc_packet seal hdr uid [] [] key pt rnd = Ok b /\ (length b <= MaxPacketLen)%nat /\
+       decode_packet b = Ok p /\
+       p_uid p = uid /\ p_nonce p = rnd /\ p_ct p = seal key rnd (Some (firstn (p_pos p) b)) pt /\
+       client_accept open b key uid = Ok p' /\
+       ((24 <= L)%nat -> p_cookies p' = resp_cookies (c0 :: rest) uid)).
+Proof. exact c10_complete. Qed.
+Print Assumptions C10_complete.
+
+(* the same for ANY identifier (>= 32 bytes), cookies, placeholder bodies and
+   plaintext that EncodePacket is given, as long as the packet fits into 1024
+   bytes (enc_len = 48 + the field lengths, see Proofs/NtsAuthComplete.v) and the
+   extension fields inside the plaintext are well formed: EncodePacket returns
+   exactly pre ++ auth_field (no panic, no truncation), DecodePacket reads back
+   exactly the encoder's fields (bodies zero-padded to a multiple of 4: padz),
+   nonce, ciphertext and the authenticator position length pre, and both
+   receivers accept under the sealing key *)
+Theorem C10_complete_encoder : forall seal open, ideal_aead seal open ->
+  forall (hdr uid : bytes) (cookies phs : list bytes) (key pt rnd : bytes) (cs : list bytes),
+  length hdr = 48%nat -> (32 <= length uid)%nat -> key_ok key = true -> length rnd = 16%nat ->
+  (enc_len uid cookies phs pt <= MaxPacketLen)%nat ->
+  plain_loop (length pt) pt 0 (map padz cookies) = Ok cs ->
+  let pre := pre_bytes hdr uid cookies phs in
+  let ct := seal key rnd (Some pre) pt in
+  let b := pre ++ auth_field rnd ct in
+  let p := {| p_uid := padz uid; p_cookies := map padz cookies; p_nph := length phs;
+              p_nonce := rnd; p_ct := ct; p_pos := length pre |} in
+  let p' := {| p_uid := padz uid; p_cookies := cs; p_nph := length phs;
+               p_nonce := rnd; p_ct := ct; p_pos := length pre |} in
+  enc_packet seal hdr uid cookies phs key pt rnd = Ok b /\
+  decode_packet b = Ok p /\ firstn (length pre) b = pre /\
+  server_accept open b key = Ok p' /\
+  client_accept open b key (padz uid) = Ok p'.
+Proof. exact c10_complete_encoder. Qed.
+Print Assumptions C10_complete_encoder.
+
+(* the hypothesis on the identifier in C10_complete is needed: the identifier
+   travels zero-padded to a multiple of 4 and is read back padded, so a client
+   comparing with an identifier whose length is not a multiple of 4 rejects the
+   project's own response.  (The project's clients always use 32 bytes; a
+   server echoes the identifier as decoded, i.e. already padded.) *)
+Theorem C10_complete_needs_padded_uid : forall seal open, ideal_aead seal open ->
+  forall (hdr uid : bytes) (cookies phs : list bytes) (key pt rnd : bytes),
+  length hdr = 48%nat -> (32 <= length uid)%nat -> key_ok key = true -> length rnd = 16%nat ->
+  (enc_len uid cookies phs pt <= MaxPacketLen)%nat -> (length uid mod 4 <> 0)%nat ->
+  let pre := pre_bytes hdr uid cookies phs in
+  let b := pre ++ auth_field rnd (seal key rnd (Some pre) pt) in
+  client_accept open b key uid = Err EUnexpectedResponseID.
+Proof. exact c10_unpadded_uid. Qed.
+Print Assumptions C10_complete_needs_padded_uid.
+
+(* the authentication step alone, for any packet structure (used above): a
+   packet whose authenticator field carries the seal under the receiver's key
+   of the bytes in front of it, with a 16-byte nonce, is accepted whenever the
+   decrypted extension fields are well formed *)
+Theorem C10_authenticate_complete : forall seal open, ideal_aead seal open ->
   forall b key p pt cs,
   key_ok key = true -> length (p_nonce p) = 16%nat -> (p_pos p <= length b)%nat ->
   p_ct p = seal key (p_nonce p) (Some (firstn (p_pos p) b)) pt ->
@@ -124,7 +198,7 @@ Theorem C10_complete_partial : forall seal open, ideal_aead seal open ->
   authenticate open b key p =
     Ok {| p_uid := p_uid p; p_cookies := cs; p_nph := p_nph p; p_nonce := p_nonce p; p_ct := p_ct p; p_pos := p_pos p |}.
 Proof. exact c10_auth_complete. Qed.
-Print Assumptions C10_complete_partial.
+Print Assumptions C10_authenticate_complete.
 
 (* ---- cookies ---- *)
 
@@ -242,3 +316,45 @@ Example C10_accept_reachable :
   | _ => False
   end.
 Proof. vm_compute. exact I. Qed.
+
+(* the hypotheses of C10_complete are satisfiable: a key exchange that delivered
+   one 124-byte cookie gives a request with that cookie and 6 placeholders ... *)
+Example C10_complete_request_instance :
+  exists cookies phs, new_request [repeat 5 124%nat] = Ok (cookies, phs) /\
+                      (length (repeat 5 124%nat) <= 896)%nat /\ length cookies = 1%nat /\ length phs = 6%nat.
+Proof.
+  eexists. eexists. split; [vm_compute; reflexivity|]. split; [rewrite repeat_length; lia|].
+  split; reflexivity.
+Qed.
+
+(* ... and 8 fresh 124-byte cookies for a 32-byte identifier give a response
+   plaintext of 7 cookie fields (NewResponsePacket keeps maxCookies = 7) *)
+Example C10_complete_response_instance :
+  exists pt, new_response (repeat (repeat 5 124%nat) 8) (repeat 1 32%nat) = Ok pt /\ length pt = 896%nat /\
+             Forall (fun c : bytes => length c = 124%nat) (repeat (repeat 5 124%nat) 8) /\ (124 mod 4 = 0)%nat /\
+             1 <= max_cookies (length (repeat 1 32%nat)) 124 /\
+             length (resp_cookies (repeat (repeat 5 124%nat) 8) (repeat 1 32%nat)) = 7%nat.
+Proof.
+  eexists. split; [vm_compute; reflexivity|]. split; [reflexivity|].
+  split; [repeat constructor|]. split; [reflexivity|]. split; [vm_compute; discriminate|reflexivity].
+Qed.
+
+(* a response through the whole path, by computation, with the computable cipher
+   of C10_accept_reachable: NewResponsePacket for two 124-byte cookies, EncodePacket,
+   then DecodePacket + ProcessResponse hand exactly those two cookies to the client *)
+Example C10_response_reachable :
+  let seal := fun (k n : bytes) (ad : option bytes) (p : bytes) => repeat 0 16 ++ p in
+  let open := fun (k n : bytes) (ad : option bytes) (c : bytes) => Some (skipn 16 c) in
+  let key := repeat 7 32 in let rnd := repeat 9 16 in let uid := repeat 1 32 in
+  let cks := [repeat 5 124%nat; repeat 6 124%nat] in
+  match new_response cks uid with
+  | Ok pt => match enc_packet seal (repeat 0 48) uid [] [] key pt rnd with
+             | Ok b => match client_accept open b key uid with
+                       | Ok p' => p_cookies p' = cks
+                       | _ => False
+                       end
+             | _ => False
+             end
+  | _ => False
+  end.
+Proof. vm_compute. reflexivity. Qed.
